@@ -279,6 +279,13 @@ fn run_case_inner(case: &Value, engine: &str, own_hook: bool) -> Value {
     for id in ids.iter() {
         vm.register_helper(*id as i32 as u32, decoy_helper).unwrap();
     }
+    // compiled code binds helper addresses when it is built: compile once with the decoys, the
+    // compilation that follows the real registrations must replace that code
+    if engine != "interp" && !ids.is_empty() {
+        let _ = std::panic::catch_unwind(std::panic::AssertUnwindSafe(|| {
+            if engine == "jit" { vm.jit_compile() } else { vm.cranelift_compile() }
+        }));
+    }
     for (k, id) in ids.iter().enumerate() {
         vm.register_helper(*id as i32 as u32, HELPERS[k]).unwrap();
     }
